@@ -343,6 +343,17 @@ def main(argv=None) -> int:
             broken += b
             sh(["python3", os.path.join(VERIF, "tools", "gen_driver.py")])
             ok, b, text, drv_ok = lake_build(prop)
+            # The model driver imports the generated files of EVERY property, this run regenerated only its own. A
+            # generated file of another property that does not build was written by an earlier run against a different
+            # state of the source (e.g. a change that has since been reverted): regenerate exactly those from the
+            # current source and build once more, so that a stale file is never reported as this property's obligation.
+            own = set(getattr(mod, "GEN", []))
+            stale = sorted({m.group(1) for x in b for m in [re.match(r"S2T/Gen/(\w+)\.lean", x.name)] if m} - own)
+            if stale:
+                rep2, b2 = translate(stale)
+                sh(["python3", os.path.join(VERIF, "tools", "gen_driver.py")])
+                ok, b, text, drv_ok = lake_build(prop)
+                b += [x for x in b2 if x.name not in {y.name for y in b}]
             broken += b
             thms, examples = theorems_of(prop)
             if ok:
